@@ -136,7 +136,19 @@ def run_real(T, prog, outcomes, shutdown_at=None, make_buffer=None, eager=False)
                 # a failing call is a failing call, whatever the class of the error: an ordinary exception, the
                 # CancelledError of something the function awaited, or another BaseException-only error
                 raise (RuntimeError('f'), asyncio.CancelledError(), FuncBase('f'))[k % 3]
-        buf = BufferAsyncCalls(func, timeout=T * TICK) if make_buffer is None else make_buffer(func, T * TICK)
+        def call(xs):
+            # the buffered function need not be a coroutine function: a callable returning an awaitable may fail at
+            # call time, before there is anything to await - a failed call of no duration
+            k = n[0]
+            dur, ok = outcomes[k] if k < len(outcomes) else (0, True)
+            if not ok and not dur and k % 2:
+                n[0] += 1
+                out.append(('start', now(), sorted(xs)))
+                out.append(('end', now(), ok))
+                raise RuntimeError('at call time')
+            return func(xs)
+        call.__name__ = 'func'
+        buf = BufferAsyncCalls(call, timeout=T * TICK) if make_buffer is None else make_buffer(call, T * TICK)
 
         async def agen(p):
             for d, x in p:
